@@ -43,6 +43,11 @@ def cases(tier, rng):
         n = n_leaves(t)
         if n > 64: continue
         yield {"k": "cb", "key": rng.randrange(1, N), "tree": t, "idx": rng.randrange(n)}
+    from sighash_common import script_of_len
+    for ln in (65535, 65536, 70000):
+        t = {"list": [{"leaf": script_of_len(rng, ln)}, {"leaf": rand_leaf_script(rng)}]}
+        for idx in (0, 1):
+            yield {"k": "cb", "key": rng.randrange(1, N), "tree": t, "idx": idx}
     # addresses: none / tree / raw root; leading-zero output keys (about 1 in 256)
     for j in range(600 if tier == "quick" else 20000):
         key = rng.randrange(1, N) if j > 20 else keys[j % len(keys)]
